@@ -158,7 +158,10 @@ theorem skip_rule (s : State) (now : Int) (round : Nat) (p : ConvVal)
 
 Once a strong quorum for the unanimous value has been tallied, each phase ends with that value without waiting for
 its timer: QUALITY → PREPARE for the input, PREPARE → COMMIT for the proposal, COMMIT → DECIDE for the quorum value,
-DECIDE → termination (`decide_quorum_terminates`). What is not a theorem is that the quorum *is* tallied in time. -/
+DECIDE → termination (`decide_quorum_terminates`). That the quorum *is* tallied — for every delivery order of a
+network of honest model participants whose deliveries respect the order implied by the synchrony bound — and that
+the chain is then decided by everybody is `C02.unanimous_sync_invariant` / `C02.unanimous_sync_decides`
+(`F3/Model/Net.lean`, `F3/Proofs/Sync*.lean`). -/
 
 theorem unanimous_step_quality (s : State) (now : Int) (h : s.phase = .quality) (hp : s.proposal = s.input)
     (hq : s.quality.hasStrongFor s.input = true) :
